@@ -65,6 +65,8 @@ type Topology struct {
 	Log       []ClusterExec   // everything executed, cluster-wide order
 	Redirects map[string]int  // counts per kind: moved, ask, crossslot
 	Errors    []ClusterExec   // error replies sent (redirects and others)
+	// Misdirected: commands an importing node served under ASKING for keys that had not been moved to it
+	Misdirected []string
 	gseq      int
 }
 
@@ -188,6 +190,14 @@ func (c *clusterNode) route(s *Server, ss *Session, name string, args [][]byte) 
 		return nil
 	}
 	if migrating && imp == c.self && ss.Asking {
+		// an importing node serves whatever arrives under ASKING; it cannot know whether the key has been moved. A client
+		// may send ASKING only for the command the owner answered ASK to - i.e. for keys that live here already
+		for _, k := range keys {
+			if !t.Moved[string(k)] {
+				t.Misdirected = append(t.Misdirected, fmt.Sprintf("node %d (importing slot %d) served %s %q under ASKING although the key still lives on node %d, which never redirected it", c.self, slot, name, k, owner))
+				break
+			}
+		}
 		return nil
 	}
 	return c.redirect("moved", resp.Err(fmt.Sprintf("MOVED %d %s", slot, t.Nodes[owner].Addr)))
